@@ -31,6 +31,7 @@ next line starting with `@`):
      @hint after|before            block: anchor text, a line `@@`, then proof text
      @subst                        block: pattern, a line `@@`, then replacement  ($1..$9 = holes)   [R9]
      @nobody                       keep signature+contract, drop the body (external_body): listed as TRUSTED
+     @split EXPR : V1 V2 ..        diagnosis only: on a failed obligation re-verify once per case `EXPR is Vi`
   @end
 """
 import os
@@ -63,6 +64,7 @@ class FnSpec:
         self.substs = []    # (pattern, replacement)
         self.nobody = False
         self.pub = True
+        self.split = None
 
 
 class Unit:
@@ -157,6 +159,9 @@ def parse_unit(path):
             cur.substs.append((a, b))
         elif d == "@nobody":
             cur.nobody = True
+        elif d == "@split":
+            expr, vs = arg.split(":", 1)
+            cur.split = (expr.strip(), vs.split())
         else:
             raise SystemExit("%s:%d: unknown directive %s" % (path, i, d))
     return u
@@ -368,7 +373,7 @@ def find_anchor(btoks, anchor):
     return hits
 
 
-def build_fn(u, fs, log):
+def build_fn(u, fs, log, probe=False):
     alias, hdr, name = split_fn_path(fs.path)
     src = Source.get(u.files[alias])
     item, cont = src.find_fn(hdr, name)
@@ -432,6 +437,12 @@ def build_fn(u, fs, log):
         log.append({"rule": "nobody", "fn": fs.path})
     else:
         fn_text = "%s    %s%s    {%s%s%s}\n" % (attrs, sig_text, spec, entry, entry_hints, body)
+        if probe and "ensures" in fs.spec:
+            # vacuity probe twin: same requires, same body, `ensures false`; must FAIL to verify.
+            psig = re.sub(r"\bfn\s+%s\b" % re.escape(name), "fn %s__probe" % name, sig_text, count=1)
+            pspec = "\n" + rules.probe_spec(fs.spec) + "\n"
+            fn_text += "// ---- probe twin %s ----\n%s    %s%s    {%s%s%s}\n// ---- end probe twin ----\n" % (
+                fs.path, attrs, psig, pspec, entry, entry_hints, body)
     # container
     own = None
     if cont is not None:
@@ -503,7 +514,7 @@ fn main() {}
 """
 
 
-def assemble(unit_path, probe=False, no_hints=False):
+def assemble(unit_path, probe=False, no_hints=False, extra_requires=None):
     """Returns (text, info). probe=True replaces every contracted function's ensures by `false`."""
     u = parse_unit(unit_path)
     log = []
@@ -527,9 +538,9 @@ def assemble(unit_path, probe=False, no_hints=False):
             fs = e[1]
             if no_hints:
                 fs.hints = []
-            if probe and fs.spec.strip() and not fs.nobody:
-                fs.spec = rules.probe_spec(fs.spec)
-            text, l, _ = build_fn(u, fs, log)
+            if extra_requires and fs.path in extra_requires:
+                fs.spec = rules.add_requires(fs.spec, extra_requires[fs.path])
+            text, l, _ = build_fn(u, fs, log, probe=probe)
             lost += [(fs.path, a) for a in l]
             parts.append("// ---- extracted fn %s ----\n" % fs.path)
             parts.append(text)
